@@ -382,6 +382,26 @@ func evalConfP(cf *sdl.Conf, cfg map[string]string, preset bool) confExpect {
 		} else {
 			val = v
 		}
+	case "prefixNest":
+		// struct{ Inner *struct{ A int `validate:"min=3"` }; B string }: Inner stays nil unless
+		// the configuration supplies something below it
+		a, okA := cfg[cf.Keys[0]+".inner.a"]
+		b, okB := cfg[cf.Keys[0]+".b"]
+		if !okA && !okB {
+			e.Missing = true
+			e.Value = "{nil }"
+			return e
+		}
+		if okA {
+			e.Value = fmt.Sprintf("{%s %s}", a, b)
+			if cf.Validate == "struct" {
+				x, _ := strconv.Atoi(a)
+				e.Violate = x < 3
+			}
+		} else {
+			e.Value = fmt.Sprintf("{nil %s}", b)
+		}
+		return e
 	case "prefixStructV":
 		a, okA := cfg[cf.Keys[0]+".a"]
 		b, okB := cfg[cf.Keys[0]+".b"]
